@@ -14,7 +14,7 @@ import json, os, re, concurrent.futures as cf
 from vlib import Infra, log, read_ndjson, write_ndjson
 
 PATH_SHAPES = list(range(1, 14))
-DATA_SHAPES = list(range(1, 19))
+DATA_SHAPES = list(range(1, 31))
 
 
 def set_lit(xs):
@@ -96,12 +96,15 @@ def run_c17(ctx):
     maxlen, ext_mc, ext_gen = (5, 1, 2) if q else (6, 1, 2)
     nrand, npaths = (40, 150) if q else (300, 1200)
     # 1. exhaustive model: walk machine = recursive definition = generated language
-    ctx.tlc("SchemaPathMC", "SchemaPathMC.cfg", workers=12, timeout=2400, heap="12g",
-            consts={"Shapes": set_lit(PATH_SHAPES), "MaxLen": maxlen, "Ext": ext_mc, "LangLen": 3})
-    # 2. behaviour generator + replay
-    g = ctx.tlc("SchemaPathGen", "SchemaPathGen.cfg", workers=13, timeout=2400, heap="12g",
-                consts={"Shapes": set_lit(PATH_SHAPES + [100]), "MaxLen": maxlen, "Ext": ext_gen, "NRand": nrand, "RandDepth": 3},
-                extra=["-seed", str(ctx.seed)])
+    # 2. behaviour generator (run side by side, two TLC processes) + replay
+    with cf.ThreadPoolExecutor(max_workers=2) as ex:
+        fmc = ex.submit(ctx.tlc, "SchemaPathMC", "SchemaPathMC.cfg", workers=10, timeout=2400, heap="10g",
+                        consts={"Shapes": set_lit(PATH_SHAPES), "MaxLen": maxlen, "Ext": ext_mc, "LangLen": 3})
+        fg = ex.submit(ctx.tlc, "SchemaPathGen", "SchemaPathGen.cfg", workers=6, timeout=2400, heap="10g",
+                       consts={"Shapes": set_lit(PATH_SHAPES + [100]), "MaxLen": maxlen, "Ext": ext_gen, "NRand": nrand, "RandDepth": 3},
+                       extra=["-seed", str(ctx.seed)])
+        g = fg.result()
+        fmc.result()
     d = g["dir"]
     pairs = []
     for s in PATH_SHAPES:
@@ -242,13 +245,16 @@ def run_c18(ctx):
     ctx.build(["dv"])
     q = ctx.quick()
     me, ml = 3, 3
-    wide = [5, 7, 12, 15] if q else [s for s in DATA_SHAPES if s not in (11, 18)]     # shapes explored with 3 list entries (the others with 2)
+    wide = [5, 7, 12, 15] if q else [s for s in DATA_SHAPES if s not in (11, 18) and s < 19]     # shapes explored with 3 list entries (the others with 2)
     nrand, nmut = (600, 4) if q else (2000, 6)
-    ctx.tlc("DataValidateMC", "DataValidateMC.cfg", workers=12, timeout=2400, heap="12g",
-            consts={"Shapes": set_lit(DATA_SHAPES), "MaxEntries": me, "Wide": set_lit(wide), "MaxLL": ml})
-    g = ctx.tlc("DataValidateGen", "DataValidateGen.cfg", workers=13, timeout=2400, heap="12g",
-                consts={"Shapes": set_lit(DATA_SHAPES + [100]), "MaxEntries": me, "Wide": set_lit(wide), "MaxLL": ml, "NRand": nrand, "RandDepth": 3},
-                extra=["-seed", str(ctx.seed)])
+    with cf.ThreadPoolExecutor(max_workers=2) as ex:       # model and generator side by side (two TLC processes)
+        fmc = ex.submit(ctx.tlc, "DataValidateMC", "DataValidateMC.cfg", workers=8, timeout=2400, heap="10g",
+                        consts={"Shapes": set_lit(DATA_SHAPES), "MaxEntries": me, "Wide": set_lit(wide), "MaxLL": ml})
+        fg = ex.submit(ctx.tlc, "DataValidateGen", "DataValidateGen.cfg", workers=8, timeout=2400, heap="10g",
+                       consts={"Shapes": set_lit(DATA_SHAPES + [100]), "MaxEntries": me, "Wide": set_lit(wide), "MaxLL": ml, "NRand": nrand, "RandDepth": 3},
+                       extra=["-seed", str(ctx.seed)])
+        g = fg.result()
+        fmc.result()
     d = g["dir"]
     pairs = []
     for s in DATA_SHAPES:
@@ -271,7 +277,7 @@ def run_c18(ctx):
     for m in read_ndjson(res):
         v = m.get("v") or {}
         what, inch, leaf = ("", False, [])
-        if m["kind"] in ("decorate", "twice"):
+        if m["kind"] in ("decorate", "twice", "explicit-altered"):
             what, inch, leaf = deco_class(shapes[m["shape"]], m["d"], m["want"], m["got"])
         sig = data_sig("replay", m["kind"], v.get("k", ""), what, inch)
         ctx.disagree(sig, f"shape {m['shape']}: {m['kind']} " + (f"{v.get('k')} {v.get('n')} at /{'/'.join(v.get('path') or [])}" if v else f"{what} {'/'.join(leaf)}"),
@@ -293,7 +299,7 @@ def run_c18(ctx):
     selftest_trace(ctx, "DataValidateTrace", trace, schemas, corrupt)
     for f in fails:
         for kind in ([f["vbad"]] if f["vbad"] else []) + ([f["dbad"]] if f["dbad"] else []):
-            isd = kind in ("decorate", "twice")
+            isd = kind in ("decorate", "twice", "explicit-altered")
             sig = data_sig("trace", kind, "" if isd else f["vk"], f["diff"]["what"] if isd else "", f["diff"]["inchoice"] if isd else False)
             ctx.disagree(sig, f"schema {f['sid']}: {kind} " + (f"{f['diff']['what']} {'/'.join(f['diff']['leaf'])}" if isd else f"{f['vk']} {f['vn']}"),
                          dict(kind="trace", failure=f, how=f"bin/check C18 --tier {ctx.tier} --seed {ctx.seed}"))
